@@ -78,4 +78,23 @@ mod tests {
 #[allow(unused_imports, dead_code, missing_docs)]
 pub mod verif_hooks {
     use super::*;
+
+    /// Compiled map of a plan (see `verif::map::dump_map`), then `U <tag:value:start:end:is_global:mask:shift:one>*`
+    /// for the user features stored in the plan (mask/shift through `hb_ot_map_t::get_mask`).
+    pub fn plan_info(plan: &hb_ot_shape_plan_t) -> alloc::string::String {
+        let mut s = crate::hb::ot_map::verif_hooks::dump_map(&plan.ot_map);
+        s.push_str(" ; U");
+        for f in &plan.user_features {
+            s.push_str(&alloc::format!(
+                " {}:{}:{}:{}:{}:{}",
+                f.tag.0,
+                f.value,
+                f.start,
+                f.end,
+                f.is_global() as u8,
+                crate::hb::ot_map::verif_hooks::get_mask(&plan.ot_map, f.tag.0)
+            ));
+        }
+        s
+    }
 }
